@@ -58,7 +58,8 @@ def check_frames(sim, h):
             if t["length"] > 0:
                 for site, share in t["share"].items():
                     expected[site] += tot * share / t["length"]
-        scale = 1.0 + float(np.max(np.abs(J), initial=0.0)) * float(rm.s_len.max())
+        jmax = max(float(np.max(np.abs(fr["data"]["supercurrent"]), initial=0.0)), float(np.max(np.abs(fr["data"]["normal_current"]), initial=0.0)))
+        scale = 1.0 + jmax * float(rm.s_len.max())
         resid = np.abs(flow - expected)
         if np.any(resid > 1e-9 * scale):
             i = int(np.argmax(resid))
